@@ -66,6 +66,11 @@ CLAIMED = {
                 'unregistered names answer -32601; clean views expose exactly their public callables. Correspondence over exhaustive short histories and random deep merges, probed by dispatching every name, '
                 'names one edit away and private member names on both dispatchers.',
                 note='Kernel + standard axioms; dir() order / callable() / __name__ of members are declared per test class (oracle input); D21 (public alias of a private view member) and D24 (Method object in a prefixed registry) are recorded findings.'),
+    'C14': dict(ref='§4 C14', text='Lean theorems, for every verdict function of the validator: executed iff the arguments bind to the reduced signature, validate, and the call goes through (C14_executed_iff); '
+                'otherwise -32602 with array data and no execution; accepted arguments reach the method unchanged, or exactly the converted values when coercion is on; excluded parameters (context, predicate) are neither '
+                'among the validated arguments nor settable by the client. Tied by dispatching through real JsonSchemaValidator / PydanticValidator-validated methods (schema fragments, annotations incl. Optional / List / Dict / model / enum, '
+                'conforming / coercible / non-conforming values, positional / named, exclusion predicates, coercion on / off); the verdicts come from jsonschema / pydantic called directly on what CPython\'s binder produces.',
+                note='Kernel + standard axioms; "conforming" is what jsonschema / pydantic say — their semantics are oracles, not theorems; D6 applies to variadic signatures.'),
     'C18': dict(ref='§4 C18', text='Lean theorems over the three _rpc_handle functions: every documented media type passes the gate (tied to REQUEST_CONTENT_TYPES by the constants translator), every other one is answered 415 with an empty log, '
                 'an accepted request is answered with exactly the dispatcher\'s document, the JSON content type and status_by_error(codes) (200 + empty body for nothing), never 500 with well-behaved middlewares (via C01), '
                 'undecodable bodies 400, the integrations coincide. Tied through the aiohttp TestClient, flask test_client and werkzeug Client over media types (documented, charset / case variants, near misses, missing) '
